@@ -200,7 +200,7 @@ def expr_n(draw, env, depth, intonly=False):
         return ["v", draw(st.sampled_from(nvars))]
     if k == "counter":
         return ["f", draw(st.sampled_from(["count_lines", "count_lines", "count_scans", "line_number", "total_lines",
-                                            "count_headers", "count_headers_in_line"])), [], []]
+                                            "count_headers", "count_headers_in_line", "count"])), [], []]
     if k == "length":
         return ["f", "length", [], [expr_s(draw, env, depth - 1)]]
     if k == "int":
@@ -340,7 +340,11 @@ def expr_b(draw, env, depth, pure=True):
 
 def value_expr(draw, env, depth):
     """-> (expr, type)"""
-    t = draw(st.sampled_from(["N", "N", "S", "S", "B", "sparse"] + (["stack", "stack"] if env.stacks else [])))
+    t = draw(st.sampled_from(["N", "N", "S", "S", "B", "sparse"] + (["stack", "stack"] if env.stacks else [])
+                             + (["track"] if getattr(env, "tracks", None) else [])))
+    if t == "track":
+        nm, key = draw(st.sampled_from(sorted(env.tracks)))
+        return ["vt", nm, key], "A"
     if t == "stack":
         nm = draw(st.sampled_from(sorted(env.stacks)))
         fn = draw(st.sampled_from(["pop", "peek", "peek_size", "size"]))
@@ -367,6 +371,13 @@ def value_expr(draw, env, depth):
 
 
 def assignment(draw, env, depth, quals_ok=True, allow_track=True):
+    if allow_track and draw(st.integers(0, 5)) == 3:
+        # tracking assignment '@d.key = value' (plain, no qualifiers)
+        name = draw(st.sampled_from(["d1", "d2"]))
+        key = draw(st.sampled_from(["k", "m", "total"]))
+        rhs, typ = value_expr(draw, env, depth)
+        env.tracks = getattr(env, "tracks", set()) | {(name, key)}
+        return ["=", name, [], key, rhs]
     name = draw(st.sampled_from(["x", "y", "z", "w", "n1", "s1"]))
     prev = env.vars.get(name)
     rhs, typ = value_expr(draw, env, depth)
@@ -381,6 +392,12 @@ def assignment(draw, env, depth, quals_ok=True, allow_track=True):
         quals = draw(st.lists(st.sampled_from(cand), min_size=1, max_size=2, unique=True))
         if "increase" in quals and "decrease" in quals:
             quals.remove("decrease")
+    if rhs[0] == "f" and rhs[1] == "count" and not rhs[3]:
+        # documented form: '@t.onmatch = count()'
+        if not getattr(env, "and_mode", True) or not quals_ok:
+            rhs = ["f", "count_lines", [], []]
+        elif "onmatch" not in quals:
+            quals = ["onmatch"]
     env.vars[name] = "A" if (typ == "B" or quals) else typ
     if typ == "N" and not quals:
         env.vars[name] = "N"
